@@ -193,3 +193,20 @@ nan_prop!(c03_q_nan_or, |a, b| a.or_choice(b).0);
 nan_prop!(c03_q_nan_compare, |a, b| Interval::compare(a, b));
 nan_prop!(c03_q_nan_atan2, |a, b| a.atan2(b));
 nan_prop!(c03_q_nan_mod, |a, b| a.rem_euclid(b));
+
+// ---- atan2: corner selection decided under the quadrant-dominance contract
+// of the atan2 stub (see stubs.rs); excluded as in the property: the point
+// (y, x) = (0, 0)
+harness!(c03_q_enc_atan2, {
+    let ya = any_interval();
+    let xa = any_interval();
+    kani::assume(!ya.has_nan() && !xa.has_nan());
+    let y = any_in(ya);
+    let x = any_in(xa);
+    kani::assume(!(y == 0.0 && x == 0.0));
+    let r = ya.atan2(xa);
+    let v = B::Atan.eval(y, x);
+    assert!(encloses(r, v), "interval result does not enclose the point result");
+    kani::cover!(!r.has_nan() && !v.is_nan() && r.lower() > -3.0 && r.upper() < 3.0);
+    kani::cover!(!r.has_nan() && r.lower() < -3.0 && r.upper() > 3.0);
+});
